@@ -164,6 +164,11 @@ func checkDecode(r *ev.Run, c *ev.Case, text, shape string) {
 	if err3 != nil || !reflect.DeepEqual(k, k2) {
 		r.Violation(c, "decoded-value-roundtrip:"+shapeClass(shape), fmt.Sprintf("text=%q -> %+v -> %q -> %+v (%v)", text, *k, t2, k2, err3), caseRec{Text: text, What: shape})
 	}
+	// the caller owns what the decoder returned: scribbling over it must not show in any later decode (checked by the re-evaluation ring)
+	for i := range k.Principals {
+		k.Principals[i] = "scribbled-by-caller"
+	}
+	k.TransID, k.IsNonce, k.Version = "scribbled", !k.IsNonce, 9
 }
 
 func shapeClass(s string) string {
